@@ -7,6 +7,7 @@ import Driver.Common
 import Driver.Store
 import AskarModel.Model.KeyStore
 import AskarModel.Model.Like
+import AskarModel.Model.Seed
 
 open Lean Askar Askar.Wql Askar.Store Askar.KeyStore
 
@@ -116,13 +117,38 @@ def errOfName : String → Err
   | "Encryption" => .encryption | "Input" => .input | "NotFound" => .notFound
   | "Unsupported" => .unsupported | _ => .unexpected
 
+def algOfName (s : String) : Option Sign.KeyAlg := Sign.KeyAlg.all.find? fun a => a.name == s
+
+/-- `LocalKey::from_seed` by the model (`Model/Seed.lean` over the ChaCha20 / SHA-256 / HKDF specifications): the secret bytes -/
+def seedResult (alg : String) (seed : Bytes) (method : Option String) : Json :=
+  match algOfName alg with
+  | none => jerr "BadOp"
+  | some a =>
+    match Seed.fromSeed Seed.Std.prims Seed.seedStrictCurrent a seed method with
+    | .ok sk => Json.mkObj [("sec", jhex sk)]
+    | .err e => jerr e.name
+    | .panic _ => jerr "Panic"
+
+/-- a seeded key of the table: its secret bytes are PREDICTED from the recipe (algorithm, seed, method), not taken from the table;
+    everything else about a key (thumbprints, JWK, public bytes) is the library's own export -/
+def predictedSec (j : Json) : Option Json :=
+  let m : Option (Option String) := match str! j "how" with
+    | "seed" => some none
+    | "seed_empty" => some (some "")
+    | "bls_keygen" => some (some "bls_keygen")
+    | _ => none
+  m.map fun method =>
+    match seedResult (str! j "alg") (hex! j "mat") method with
+    | .obj o => (o.get? "sec").getD (Json.mkObj [("model", seedResult (str! j "alg") (hex! j "mat") method)])
+    | x => x
+
 def parseKey (j : Json) : DKey :=
   { alg := str! j "alg", thumbs := (arr! j "thumbs").map asStr,
     jwk := match j.getObjVal? "jwk" with
       | .ok (.str s) => .ok ((Bytes.ofHex s).getD [])
       | .ok v => .error (errOfName (str! v "err"))
       | _ => .error .unexpected,
-    sec := (j.getObjVal? "sec").toOption.getD .null, pub := (j.getObjVal? "pub").toOption.getD .null }
+    sec := (predictedSec j).getD ((j.getObjVal? "sec").toOption.getD .null), pub := (j.getObjVal? "pub").toOption.getD .null }
 
 /-- `Box::<AnyKey>::from_jwk_slice` on the table: a JWK that some key of the case exports imports back to that key
     when `from_jwk_any` has a branch for its algorithm; anything else is not a JWK the generator produces
@@ -191,6 +217,7 @@ def stepOp (table : List DKey) (st : St) (j : Json) : St × Json :=
     match doFetch st.db st.now sess 2 cryptoKey n with
     | none => (st, .null)
     | some e => (st, Driver.Store.jentry e)
+  | "from_seed" => (st, seedResult (str! j "alg") (hex! j "seed") (strOpt j "method"))
   | "raw_insert" => unit (doInsert st.db st.now sess (nat! j "k") cryptoKey n (hex! j "v") tags none)
   -- the dump is a scan: expired rows are not shown
   | "dump" => (st, Driver.Store.jentries true ((sortById (st.db.items.filter (live st.now))).map toEntry))
